@@ -110,7 +110,8 @@ class Check:
             log(r.stdout[-6000:])
             raise ToolError(f"cargo build -p {crate} failed")
         log(f"[build] {crate} ok in {time.time()-t:.1f}s")
-        return os.path.join(HARNESS, "target", "debug", crate)
+        tdir = os.environ.get("CARGO_TARGET_DIR") or os.path.join(HARNESS, "target")
+        return os.path.join(tdir, "debug", crate)
 
     # ------------------------------------------------------------------ TLC
     def cfg_with(self, base_cfg, overrides=None, name=None):
